@@ -546,6 +546,9 @@ func (e *raceExec) Do(line string) string {
 	ctx := sprintf("seed=%d variant=%d goroutines=%d", seed, variant, n)
 	ops := raceOps(g, rand.New(rand.NewSource(seed^0x5eed)))
 
+	// the backing arrays of every listing, before any read-only operation has run
+	snaps := listingSnapshots(g)
+
 	// sequential reference (twice: the reference must be a function of the model)
 	want := make([]string, len(ops))
 	usable := make([]bool, len(ops))
@@ -606,6 +609,11 @@ func (e *raceExec) Do(line string) string {
 			}
 		}
 	}()
+
+	// no read-only operation may have stored into memory that a listing of the model shares
+	if ch := listingChanged(snaps); len(ch) > 0 {
+		e.add("c18-readonly-write-into-listing", sprintf("%s: after the sequential read-only operations the backing array of %v holds other elements than before: a read-only operation stored into memory shared with a listing", ctx, ch))
+	}
 
 	// concurrent phase
 	var wg sync.WaitGroup
